@@ -102,7 +102,7 @@ var (
 	seedSplit = sim.MustParse(
 		"timeout n1", "rt 1>0:RV#0 a=2", "rt 1>0:RV#1", "rt 1>0:AE#0",
 		"timeout n0", "rt 0>2:RV#0 a=2", "rt 1>0:AE#1", "timeout n0", "timeout n1",
-		"cut n0 a=1", // the two candidates cannot hear each other
+		"cut n0 a=1",                                                                        // the two candidates cannot hear each other
 		"drop 1>2:RV#0", "drop 1>2:RV#1", "drop 1>2:AE#0", "drop 1>2:AE#1", "drop 0>2:RV#1", // stale requests
 	)
 	// S-stale (5 voters, K19): n0 led term 1 and has two unanswered AppendEntries:
@@ -155,6 +155,17 @@ var (
 		"rt 0>1:RV#1", "rt 0>2:RV#1", "rt 0>3:RV#1", "rt 0>4:RV#1",
 		"rt 0>1:AE#0", "rt 0>2:AE#0", "rt 0>3:AE#0", "rt 0>4:AE#0",
 		"rt 0>1:AE#1", "rt 0>2:AE#1", "rt 0>3:AE#1", "rt 0>4:AE#1",
+	)
+	// S-nonvoters (3 voters + 2 non-voters, K2): n0 led term 1, added n3 and n4 as
+	// non-voting members (both changes committed everywhere), then lost contact
+	// with the voters n1 and n2 but not with the non-voters; n1 leads term 2.
+	seedNonVoters = sim.MustParse(
+		"timeout n0", "rt 0>1:RV#0 a=2", "rt 0>2:RV#0 a=2", "rt 0>1:RV#1", "rt 0>2:RV#1",
+		"rt 0>1:AE#0", "rt 0>2:AE#0", "rt 0>1:AE#1", "rt 0>2:AE#1",
+		"add n0 a=3 nonvoter", "rt 0>1:AE#2", "rt 0>2:AE#2", "rt 0>3:AE#0", "rt 0>1:AE#3", "rt 0>2:AE#3", "rt 0>3:AE#1",
+		"add n0 a=4 nonvoter", "rt 0>1:AE#4", "rt 0>2:AE#4", "rt 0>3:AE#2", "rt 0>4:AE#0", "rt 0>1:AE#5", "rt 0>2:AE#5", "rt 0>3:AE#3", "rt 0>4:AE#1",
+		"cut n0 a=1", "cut n0 a=2", "cut n1 a=3", "cut n1 a=4", "cut n2 a=3", "cut n2 a=4", // partition {n0,n3,n4} | {n1,n2}
+		"timeout n1", "rt 1>2:RV#0 a=2", "rt 1>2:RV#1", "rt 1>2:AE#0",
 	)
 	// S-leader (3 voters): n0 leads term 1, its no-op is committed everywhere.
 	seedLeader3 = sim.MustParse(
@@ -271,6 +282,8 @@ func init() {
 		Budget: sim.Budget{Timeouts: 9, Elapses: 9, Beats: 9, Writes: 9, Reads: 9, Members: 9, Reorders: -1, Splits: 9, Cuts: 9, Crashes: 9, Restarts: 9, Deviations: -1}})
 	reg(&explore.Suite{Name: "freenv", Cfg: sim.Config{Voters: 3, Spares: 2}, Seed: seedLeader3, Monitors: memberMonitors,
 		Budget: sim.Budget{Timeouts: 9, Elapses: 9, Beats: 9, Writes: 9, Reads: 9, Members: 9, Reorders: -1, Splits: 9, Cuts: 9, Crashes: 9, Restarts: 9, Deviations: -1}})
+	reg(&explore.Suite{Name: "freememt", Cfg: sim.Config{Voters: 3, Spares: 1}, Seed: seedLeader3, Monitors: memberMonitors,
+		Budget: sim.Budget{Timeouts: 9, Elapses: 9, Beats: 9, Writes: 9, Reads: 9, Members: 9, Reorders: -1, Splits: 9, Cuts: 9, Crashes: 9, Restarts: 9, Deviations: -1}})
 	reg(&explore.Suite{Name: "freemem4", Cfg: sim.Config{Voters: 4, Spares: 1}, Monitors: memberMonitors,
 		Budget: sim.Budget{Timeouts: 9, Elapses: 9, Beats: 9, Writes: 9, Reads: 9, Members: 9, Reorders: -1, Splits: 9, Cuts: 9, Crashes: 9, Restarts: 9, Deviations: -1}})
 	// C16: timed, faults only on the minority node n2
@@ -278,7 +291,7 @@ func init() {
 		for rot := 0; rot < 3; rot++ {
 			reg(&explore.Suite{Name: fmt.Sprintf("sticky3r%d-d%d", rot, d), Cfg: sim.Config{Voters: 3, Timed: true, Asym: true, Rot: rot}, Seed: seedLeader3,
 				Monitors: stickyMonitors(0, []int{0, 1}), Filter: onlyNodes(2),
-				Budget:   sim.Budget{Cuts: 3, Crashes: 1, Restarts: 1, Steps: 36, Reorders: -1, MsgSteps: 2, Deviations: d}})
+				Budget: sim.Budget{Cuts: 3, Crashes: 1, Restarts: 1, Steps: 36, Reorders: -1, MsgSteps: 2, Deviations: d}})
 		}
 	}
 	// C16 seed S-isolated: n2 has been cut off for 10 intervals and is campaigning
@@ -287,7 +300,7 @@ func init() {
 		for rot := 0; rot < 3; rot++ {
 			reg(&explore.Suite{Name: fmt.Sprintf("rejoin3r%d-d%d", rot, d), Cfg: sim.Config{Voters: 3, Timed: true, Asym: true, Rot: rot}, Seed: isolated,
 				Monitors: stickyMonitors(0, []int{0, 1}), Filter: onlyNodes(2),
-				Budget:   sim.Budget{Cuts: 2, Crashes: 1, Restarts: 1, Steps: 16, Reorders: -1, MsgSteps: 3, Deviations: d}})
+				Budget: sim.Budget{Cuts: 2, Crashes: 1, Restarts: 1, Steps: 16, Reorders: -1, MsgSteps: 3, Deviations: d}})
 		}
 	}
 	// C17: timed lease reads. S-cutleader: the leader n0 has been cut off for 10
@@ -305,6 +318,59 @@ func init() {
 			Budget: sim.Budget{Writes: 1, LeaseReads: 2, Cuts: 2, Lags: 2, Steps: 30, Reorders: -1, MsgSteps: 1, Deviations: d}})
 		reg(&explore.Suite{Name: fmt.Sprintf("cutlease3-d%d", d), Cfg: sim.Config{Voters: 3, Timed: true}, Seed: cutLeader, Monitors: leaseMonitors,
 			Budget: sim.Budget{Writes: 2, LeaseReads: 2, Cuts: 1, Lags: 1, Steps: 14, Reorders: -1, MsgSteps: 1, Deviations: d}})
+	}
+	// C15: exploration families with the fault-free continuation evaluated on
+	// every leaf (quick) or every distinct state (thorough, suffix "all").
+	for d := 0; d <= 4; d++ {
+		for _, all := range []bool{false, true} {
+			sfx := ""
+			if all {
+				sfx = "all"
+			}
+			reg(&explore.Suite{Name: fmt.Sprintf("live-rep3%s-d%d", sfx, d), Cfg: sim.Config{Voters: 3, StoreHook: true}, Leaf: monitor.Continuation(150), LeafAll: all,
+				Budget: sim.Budget{Timeouts: 3, Elapses: 3, Beats: 1, Writes: 2, Cuts: 1, Crashes: 1, Arms: 1, Restarts: 1, Reorders: -1, Splits: 1, Deviations: d}})
+			reg(&explore.Suite{Name: fmt.Sprintf("live-snap3%s-d%d", sfx, d), Cfg: sim.Config{Voters: 3, SnapAt: 2, StoreHook: true, ArmDepth: 5}, Seed: seedLeader3, Monitors: snapMonitors, Leaf: monitor.Continuation(150), LeafAll: all,
+				Budget: sim.Budget{Timeouts: 1, Elapses: 2, Beats: 2, Writes: 3, Cuts: 2, Crashes: 1, Arms: 1, Restarts: 1, Reorders: -1, Splits: 1, Deviations: d}})
+			reg(&explore.Suite{Name: fmt.Sprintf("live-bigsnap3%s-d%d", sfx, d), Cfg: sim.Config{Voters: 3, SnapAt: 2, SnapPad: 33 * 1024}, Seed: seedLeader3, Monitors: snapMonitors, Leaf: monitor.Continuation(150), LeafAll: all,
+				Budget: sim.Budget{Timeouts: 1, Elapses: 2, Beats: 2, Writes: 3, Cuts: 2, Crashes: 1, Restarts: 1, Reorders: -1, Splits: 1, Deviations: d}})
+			reg(&explore.Suite{Name: fmt.Sprintf("live-mem3%s-d%d", sfx, d), Cfg: sim.Config{Voters: 3, Spares: 1}, Seed: seedLeader3, Monitors: memberMonitors, Classify: memberClassify, Leaf: monitor.Continuation(150), LeafAll: all,
+				Budget: sim.Budget{Timeouts: 1, Elapses: 2, Beats: 1, Writes: 1, Members: 2, Cuts: 1, Reorders: -1, Splits: 1, Deviations: d}})
+		}
+	}
+	// S-stalesuffix (3 voters, snapshots on): the deposed leader n0 holds two
+	// uncommitted term-1 writes (indices 3,4); n1 leads term 2, has committed
+	// its no-op and two writes with n2 and compacted its log behind a snapshot;
+	// n0 is still cut off.
+	staleSuffix := append(append([]sim.Event{}, seedLeader3...), sim.MustParse(
+		"isolate n0", "write n0", "write n0", "timeout n1", "rt 1>2:RV#0 a=2", "rt 1>2:RV#1", "rt 1>2:AE#0", "rt 1>2:AE#1",
+		"write n1", "rt 1>2:AE#2", "rt 1>2:AE#3", "write n1", "rt 1>2:AE#4", "rt 1>2:AE#5")...)
+	for d := 0; d <= 4; d++ {
+		reg(&explore.Suite{Name: fmt.Sprintf("stalesuffix3-d%d", d), Cfg: sim.Config{Voters: 3, SnapAt: 2}, Seed: staleSuffix, Monitors: snapMonitors,
+			Budget: sim.Budget{Timeouts: 1, Elapses: 1, Beats: 3, Writes: 1, Cuts: 1, Reorders: -1, Splits: 1, Deviations: d}})
+	}
+	// S-oldlong (3 voters, no snapshots): the deposed leader n0 is cut off with two
+	// pending (uncommitted) term-1 writes at indices 3,4; n1 leads term 2 and has
+	// committed its no-op with n2. "Long old log versus short new log."
+	oldLong := append(append([]sim.Event{}, seedLeader3...), sim.MustParse(
+		"isolate n0", "write n0", "write n0", "timeout n1", "rt 1>2:RV#0 a=2", "rt 1>2:RV#1", "rt 1>2:AE#0", "rt 1>2:AE#1")...)
+	for d := 0; d <= 5; d++ {
+		reg(&explore.Suite{Name: fmt.Sprintf("oldlong3-d%d", d), Cfg: sim.Config{Voters: 3}, Seed: oldLong,
+			Budget: sim.Budget{Timeouts: 2, Elapses: 3, Writes: 1, Cuts: 1, Crashes: 1, Reorders: -1, Deviations: d}})
+		reg(&explore.Suite{Name: fmt.Sprintf("pending3-d%d", d), Cfg: sim.Config{Voters: 3}, Seed: oldLong,
+			Budget: sim.Budget{Timeouts: 1, Elapses: 1, Beats: 1, Writes: 2, Cuts: 1, Reorders: -1, Splits: 1, ClientTimeouts: 1, Deviations: d}})
+	}
+	// snapshots on (threshold 2): local snapshots, compaction, installation
+	for d := 0; d <= 4; d++ {
+		reg(&explore.Suite{Name: fmt.Sprintf("snap3-d%d", d), Cfg: sim.Config{Voters: 3, SnapAt: 2}, Seed: seedLeader3, Monitors: snapMonitors,
+			Budget: sim.Budget{Timeouts: 2, Elapses: 2, Beats: 2, Writes: 3, Cuts: 2, Crashes: 1, Restarts: 1, Reorders: -1, Splits: 1, Deviations: d}})
+		reg(&explore.Suite{Name: fmt.Sprintf("bigsnap3-d%d", d), Cfg: sim.Config{Voters: 3, SnapAt: 2, SnapPad: 33 * 1024}, Seed: seedLeader3, Monitors: snapMonitors,
+			Budget: sim.Budget{Timeouts: 2, Elapses: 2, Beats: 2, Writes: 3, Cuts: 2, Crashes: 1, Restarts: 1, Reorders: -1, Splits: 1, Deviations: d}})
+		reg(&explore.Suite{Name: fmt.Sprintf("memsnap3-d%d", d), Cfg: sim.Config{Voters: 3, Spares: 1, SnapAt: 2}, Seed: seedLeader3, Monitors: snapMonitors,
+			Budget: sim.Budget{Timeouts: 1, Elapses: 1, Beats: 1, Writes: 2, Members: 1, Cuts: 1, Crashes: 1, Restarts: 1, Reorders: -1, Splits: 1, Deviations: d}})
+	}
+	for d := 0; d <= 4; d++ {
+		reg(&explore.Suite{Name: fmt.Sprintf("nvread5-d%d", d), Cfg: sim.Config{Voters: 3, Spares: 2}, Seed: seedNonVoters, Monitors: memberMonitors,
+			Budget: sim.Budget{Timeouts: 1, Elapses: 1, Beats: 1, Writes: 1, Reads: 2, Cuts: 1, Reorders: -1, Splits: 1, Deviations: d}})
 	}
 	// small unbounded spaces (no deviation bound): every order within the budgets
 	reg(&explore.Suite{Name: "all2", Cfg: sim.Config{Voters: 2},
